@@ -68,7 +68,7 @@ Proof. destruct o as [[x p]| |]; cbn [goodP fst snd]; auto. Qed.
 
 Lemma serialize_no_panic_any_size m a p : a_cstrs a = [] -> BinFormat.serialize m a <> Panic p.
 Proof.
-  intros Hc. unfold BinFormat.serialize. rewrite Hc.
+  intros Hc. unfold BinFormat.serialize, BinFormat.serialize_k. rewrite Hc.
   change (isort (fun x y : bytes * list N => bytes_leb (fst x) (fst y)) []) with (@nil (bytes * list N)).
   cbn [cstr_pool]. change (pad_to 4 (p_raw pool_empty)) with (@nil N). intros H.
   apply bind_Panic_inv in H. destruct H as [H|(d1 & _ & H)]; [exact (poke_all_no_panic _ _ _ _ H)|].
